@@ -122,6 +122,19 @@ fn hash_cases(thorough: bool) -> Vec<HashCase> {
             }
         }
     }
+    // long outputs (raw and hex): lengths well beyond one block / one stdout buffer
+    for &length in &[1024u64, 1025, 2047, 2048, 2049, 4096, 8193, 65537, 1 << 20] {
+        for &seek in &[0u64, 63, 64 * (1u64 << 32) - 1] {
+            for &out in &[OutK::Raw, OutK::Names] {
+                for &(size, mode) in &[(1025usize, ModeK::Plain), (0, ModeK::Keyed), (65537, ModeK::Derive)] {
+                    if !thorough && length > 8193 && (out == OutK::Names && seek != 0) {
+                        continue;
+                    }
+                    v.push(HashCase { size, mode, length, seek, no_mmap: false, threads: Some(1), out, via_stdin: false });
+                }
+            }
+        }
+    }
     // stdin as the input (plain and derive modes; keyed mode needs stdin for the key)
     for &size in &[0usize, 1, 1025, 65537, 200_000] {
         for mode in [ModeK::Plain, ModeK::Derive] {
